@@ -190,6 +190,14 @@ func genC16(o *cw) {
 		t := reTemplates[o.r.Intn(len(reTemplates))]
 		o.c("regex", nil, "/", "-", "replace\x00"+s+"\x00"+p+"\x00"+t, "", "replace")
 	}
+	emitRegexDocs(o, 150*o.tier)
+	// matches() first, then replace() with the same pattern: the cached regexp must not be altered
+	for _, p := range []string{"a|ab", "xa*?", "(fo|foo)(b?)", "a*?b", "(a|ab)(c|bcd)"} {
+		for _, s := range []string{"abcd", "xaab", "foob", "aab", "abcd"} {
+			o.c("regex", nil, "/", "-", "matches\x00"+s+"\x00"+p, "", "matches-then-replace")
+			o.c("regex", nil, "/", "-", "replace\x00"+s+"\x00"+p+"\x00X", "", "matches-then-replace")
+		}
+	}
 	_ = gen.Join
 }
 
@@ -235,4 +243,82 @@ func xpathReplace(re *regexp.Regexp, s, tmpl string) string {
 	}
 	b.WriteString(s[last:])
 	return b.String()
+}
+
+// doRegexDoc: one compiled expression with a NON-constant pattern is evaluated for
+// many nodes, each with its own subject and pattern: "v\x01p\x00v\x01p..."
+func doRegexDoc(spec string) (out string) {
+	defer func() {
+		if r := recover(); r != nil {
+			out = classify(r)
+		}
+	}()
+	root := &doc.Node{Type: xpath.RootNode}
+	top := root.Add(&doc.Node{Type: xpath.ElementNode, Name: "r"})
+	type vp struct{ v, p string }
+	var items []vp
+	for _, it := range strings.Split(spec, "\x00") {
+		f := strings.SplitN(it, "\x01", 2)
+		if len(f) != 2 {
+			continue
+		}
+		if _, err := regexp.Compile(f[1]); err != nil {
+			continue
+		}
+		items = append(items, vp{f[0], f[1]})
+		top.Add(&doc.Node{Type: xpath.ElementNode, Name: "e", Attrs: []*doc.Attr{{Name: "v", Value: f[0]}, {Name: "p", Value: f[1]}}})
+	}
+	d := &docEntry{root: root}
+	rootRef := doc.Ref{N: root, Attr: -1}
+	// (a) as a predicate over all candidates
+	e, err := xpath.Compile("//e[matches(@v, string(@p))]")
+	if err != nil {
+		return "E:mismatch:compile:" + doc.Esc(err.Error())
+	}
+	var want []string
+	for i, it := range items {
+		if regexp.MustCompile(it.p).MatchString(it.v) {
+			want = append(want, fmt.Sprintf("/0.%d", i))
+		}
+	}
+	for round := 0; round < 2; round++ {
+		got := doSelect(e, d, rootRef)
+		if got != "N:"+strings.Join(want, ",") {
+			return fmt.Sprintf("E:mismatch:regexdoc-select-round%d:%s|N:%s", round, got, strings.Join(want, ","))
+		}
+	}
+	// (b) the same compiled expression from every node as context node, twice
+	m, _ := xpath.Compile("matches(@v, string(@p))")
+	rp, _ := xpath.Compile("replace(@v, string(@p), 'X')")
+	for round := 0; round < 2; round++ {
+		for i, it := range items {
+			ctx := doc.Ref{N: top.Children[i], Attr: -1}
+			w := "B:false"
+			if regexp.MustCompile(it.p).MatchString(it.v) {
+				w = "B:true"
+			}
+			if got := doEvaluate(m, d, ctx); got != w {
+				return fmt.Sprintf("E:mismatch:regexdoc-matches:%d:%s|%s", i, got, w)
+			}
+			wr := "S:" + escNoTilde(xpathReplace(regexp.MustCompile(it.p), it.v, "X"))
+			if got := doEvaluate(rp, d, ctx); got != wr {
+				return fmt.Sprintf("E:mismatch:regexdoc-replace:%d:%s|%s", i, got, wr)
+			}
+		}
+	}
+	return fmt.Sprintf("ok:%d", len(want))
+}
+
+// emitRegexDocs adds regexdoc cases to a generator
+func emitRegexDocs(o *cw, n int) {
+	pats := []string{"a", "b+", "^a", "c$", "[0-9]+", "a|ab", "xa*?", "(fo|foo)(b?)", "^$", ".", "\\d\\d", "a.c", "(?i)abc", "b*"}
+	subj := []string{"", "a", "ab", "abc", "aab", "bbb", "xx", "a1b22", "ABC", "foob", "xaa", "cab"}
+	for i := 0; i < n; i++ {
+		k := 3 + o.r.Intn(6)
+		var parts []string
+		for j := 0; j < k; j++ {
+			parts = append(parts, subj[o.r.Intn(len(subj))]+"\x01"+pats[o.r.Intn(len(pats))])
+		}
+		o.c("regexdoc", nil, "/", "-", strings.Join(parts, "\x00"), "", "regex-per-node")
+	}
 }
